@@ -31,8 +31,12 @@ BufferOf(c, bytes) == IF c.mode = "pub" THEN bytes ELSE Zeros(c.pre) \o bytes
 FramesOf(c, m) ==
   IF c.mode = "pub" THEN <<FHdr("magic", Norm(c.t), m)>> ELSE <<FR(Norm(c.t), m)>>
 
+\* the fault-free output: what serializing the corresponding *vector* value gives (C16: slices and
+\* exact-size iterators are written as the vector; for a lying iterator: the announced length word
+\* followed by the items actually yielded)
 ExpectedOut(c) ==
-  IF c.mode = "pub" THEN Stream(c.t, c.v, c.nameLen) ELSE Encode(c.t, c.v, c.pre)
+  LET full == IF c.mode = "pub" THEN Stream(Norm(c.t), c.v, c.nameLen) ELSE Encode(Norm(c.t), c.v, c.pre)
+  IN full
 
 ReadIdle ==
   /\ input = <<>> /\ rpos = 0 /\ base = 0 /\ rstack = <<>> /\ vals = <<>>
@@ -56,7 +60,7 @@ SysInit(Cases) == case \in Cases /\ SysInitRest
 Load ==
   /\ phase = "load"
   /\ prog' = ProgramOf(case) /\ exp' = ExpectedOut(case) /\ phase' = "ser"
-  /\ UNCHANGED <<pc, pos, pos0, out, status, detail, padleft, cur, inwrite, rows, path, starts, fake, src, faults>>
+  /\ UNCHANGED <<pc, pos, pos0, out, status, detail, padleft, cur, inwrite, rows, path, starts, fake, src, faults, ncalls, fault>>
   /\ UNCHANGED <<readVars, case, fullRes>>
 
 ResRec == [st |-> rstatus, detail |-> rdetail, val |-> IF rstatus = "ok" THEN vals ELSE <<>>,
@@ -96,7 +100,7 @@ UnitsSane ==
 \* C06: the machine's output is the reference encoding
 OutIsEncode == (phase # "ser" /\ status = "ok") => out = exp
 \* C13: what the sink accepted is always a prefix of the fault-free output
-OutIsPrefix == phase # "load" => Len(out) <= Len(exp) /\ out = SubSeq(exp, 1, Len(out))
+OutIsPrefix == (phase # "load" /\ case.ann < 0) => Len(out) <= Len(exp) /\ out = SubSeq(exp, 1, Len(out))
 
 \* C01 + C07 (consumed count)
 FullRoundTrip ==
